@@ -169,7 +169,7 @@ func (r *Replayer) build() error {
 	os.WriteFile(hp, src, 0644)
 	os.WriteFile(tp, []byte(replayTestSrc), 0644)
 	ov := map[string]map[string]string{"Replace": {
-		filepath.Join(repoDir(), harnessVirtualName):         hp,
+		filepath.Join(repoDir(), harnessVirtualName):        hp,
 		filepath.Join(repoDir(), "zz_verif_replay_test.go"): tp,
 	}}
 	ob, _ := json.Marshal(ov)
